@@ -53,3 +53,61 @@ REGISTRY["C10"] = {
     "floors": lambda tier: {"distinct_nontrivial": 1000, "tables_multi_block": 100,
                             "rejected_attempts.out_of_order": 100, "metadata_checks": 100},
 }
+
+# ------------------------------------------------------------------------------------------- C11
+REGISTRY["C11"] = {
+    "level": "exploration",
+    "technique": "differential runtime monitor: real merging/concat/bounds/pruning/lazy cursors vs vectors computed from their definitions, compared after every call of generated cursor programs",
+    "level_text": ("Exploration: generated families of child tables and cursor programs; every call's position is "
+                   "compared with the definitional vector. Silent on input families not generated."),
+    "level_note": "Trusted: VecCursor (harness), the definitions coded in c11.rs (sorted union, concatenation, interval restriction, newest<=t non-tombstone), RefCursor sentinel semantics.",
+    "rule": ("Each case = one combinator (merge / concat / bounds / prune / lazy / the store's "
+             "Bounds(Prune(Merge)) stack) over generated multi-version entries distributed over 1-7 "
+             "children (empty children, tombstone-only children, one key's versions split across "
+             "adjacent children), random bounds (incl. empty and inverted) and read timestamps, and "
+             "two 40-call programs of seek_to_first/seek_to_last/seek/next/prev. Non-trivial = >=2 "
+             "children (or >=2 entries for unary combinators), a tombstone or a shared key present, "
+             "and a reversal or seek in a program; distinct = structural hash of the case."),
+    "assumptions": ["identical (key,timestamp) in two children is not generated: its order is undefined"],
+    "jobs": lambda tier: [
+        job("combinators", "c11", shards=16, cases=q(tier, 4000, 150000), prog=40),
+    ] + ([job("combinators-release", "c11", flavour="release", shards=16, cases=150000, prog=60)]
+         if tier == "thorough" else []),
+    "floors": lambda tier: {"distinct_nontrivial": 3000, "nontrivial.merge": 300, "nontrivial.concat": 300,
+                            "nontrivial.bounds": 300, "nontrivial.prune": 300, "nontrivial.lazy": 300,
+                            "nontrivial.stack": 300, "bounds.empty_or_inverted": 50},
+}
+
+# ------------------------------------------------------------------------------------------- C14
+import c14_reference  # noqa: E402
+
+
+def _c14_ref_job(tier):
+    j = job("reference", "c14ref", shards=16, timeout=900, cases=q(tier, 3000, 60000),
+            mine_ms=q(tier, 2500, 120000))
+    j["runner"] = c14_reference.runner
+    return j
+
+
+REGISTRY["C14"] = {
+    "level": "exploration",
+    "technique": "differential runtime monitor: setsum digests of generated multisets recomputed by an independent Python reference (hashlib.sha3_256 + integer arithmetic); algebraic-law monitor over boundary values",
+    "level_text": ("Exploration: generated multisets (empty/repeated/vectored items, items whose SHA3 words are >= the "
+                   "column prime) recomputed from the published definition; laws checked on columns at 0,1,p-1 and "
+                   "on digests in p..2^32-1 fed through from_digest."),
+    "level_note": "Trusted: Python hashlib SHA3-256 and the reference in lib/c14_reference.py; non-canonical inputs are compared modulo the primes.",
+    "rule": ("laws job: one case = one law instance over generated items/values (order independence, "
+             "union=sum, remove/sub inverse, vectored split at every position, digest round trips, "
+             "sst::Setsum put/del/insert framing); reference job: one case = one multiset / key-value "
+             "list / signed sum whose digest the real code computed and the Python reference "
+             "recomputes. Non-trivial = contains an empty, repeated, vectored or boundary-word item or "
+             "a boundary column; distinct = structural hash of the inputs."),
+    "assumptions": ["comparisons involving digests with columns >= the prime are made modulo the primes"],
+    "jobs": lambda tier: [
+        job("laws", "c14", shards=16, cases=q(tier, 20000, 1000000)),
+        _c14_ref_job(tier),
+    ] + ([job("laws-release", "c14", flavour="release", shards=16, cases=1000000)] if tier == "thorough" else []),
+    "floors": lambda tier: {"distinct_nontrivial": 10000, "law.addsub_noncanonical_inputs": 1000,
+                            "reference.cases_recomputed": 10000,
+                            "reference.cases_touching_boundary_word": 500},
+}
